@@ -91,7 +91,7 @@ func (x *Exec) useStr() {
 	x.reg.declare("strlen", "(Int) Int")
 	x.reg.declare("strat", "(Int Int) Int")
 	x.reg.declare("str_empty", "Int")
-	x.reg.axiom("strlen", "nonneg", "(forall ((s Int)) (! (>= (strlen s) 0) :pattern ((strlen s))))")
+	x.reg.axiom("strlen", "nonneg", "(forall ((s Int)) (! (and (>= (strlen s) 0) (<= (strlen s) 4611686018427387904)) :pattern ((strlen s))))")
 	x.reg.axiom("strlen", "empty", "(forall ((s Int)) (! (=> (= (strlen s) 0) (= s str_empty)) :pattern ((strlen s))))")
 	x.reg.axiom("str_empty", "len", "(= (strlen str_empty) 0)")
 	x.reg.axiom("strat", "byte", "(forall ((s Int) (i Int)) (! (and (<= 0 (strat s i)) (<= (strat s i) 255)) :pattern ((strat s i))))")
@@ -453,6 +453,7 @@ func (x *Exec) Run() {
 	x.reg.declare("|alloc@0|", "Int")
 	st := &State{alloc: "|alloc@0|", H: Heap{M: map[string]string{}}, iters: map[ssa.Value]*iterState{}}
 	st.assume("(>= |alloc@0| 0)")
+	x.installAxioms()
 	fr := &Frame{fn: fn, vals: map[ssa.Value]Val{}, names: map[string]Val{}, block: fn.Blocks[0], kind: fkTop, variant: map[int]string{}, loopOld: map[int]Heap{}}
 	st.fr = fr
 	x.entry = map[string]Val{}
